@@ -116,7 +116,7 @@ class F:
         for n_ in walk_local(self.node):
             if isinstance(n_, ast.Attribute) and isinstance(n_.ctx, (ast.Store, ast.Del)) and isinstance(n_.value, ast.Name):
                 mut.add(n_.value.id)
-        self._mutated = mut
+        self._mutated = mut | M._returned_and_written(self.node)
         return IN
 
     def xe_at(self, idx: int, e: ast.AST, depth: int = 6) -> ast.AST:
